@@ -11,6 +11,7 @@
 //! svl <nblocks> <adds> <adds2|x> <queries>    SieveTableLarge, same
 //! sv_cof <P> <x> <facs> <maxlarge> <double>   fbase::cofactor
 //! sv_fb <n> <size>                            FBase::new: primes and idx_by_log
+//! sv_mult <n>                                 fbase::select_multiplier
 use crate::util::*;
 use std::str::FromStr;
 use yamaquasi::arith::{Dividers, I256};
@@ -283,6 +284,8 @@ pub fn handle(op: &str, a: &[&str]) -> Option<String> {
         ("svt", 4) => svt(a),
         ("svl", 4) => svl(a),
         ("sv_cof", 5) => cof(a),
+        // multiplier the quadratic sieves would select for n (used to build inputs for `factor`)
+        ("sv_mult", 1) => Some(fbase::select_multiplier(uint_of(a[0])?).0.to_string()),
         ("sv_fb", 2) => {
             let n = Int::from_str(a[0]).ok()?;
             let fb = FBase::new(n, u32_of(a[1])?);
